@@ -723,6 +723,8 @@ func CheckTunnel(c *Ctx, t *Tun, mc ModelCfg, prop string) *TunVerdict {
 			if r := take(); r != nil {
 				if r.Pkt.Type != codec.PktCloseChannelResp {
 					failf(c, "C16", "type-mismatch", "%s: CLOSE answered by %s", name, codec.PktName(r.Pkt.Type))
+				} else if r.Pkt.Status != 0 {
+					failf(c, "C16", "valid-step-refused", "%s: the channel close is valid in this phase (the channel is closed by it) but was answered with status %#x", name, r.Pkt.Status)
 				}
 			}
 		case KUnknown:
